@@ -544,6 +544,14 @@ def wire_checks(ctx, b, layers, raw, npay, tag=''):
       ctx.check(tag + 'tcp checksum field == RFC 1071 over pseudo-header + segment', num(raw[o + 16:o + 18]) == pu.checksum(env.tobytes(ctx, ph + zeroed(seg, 16))))
     elif name == 'igmp':
       ctx.check(tag + 'igmp checksum field == RFC 1071 over the IGMP message', num(raw[o + 2:o + 4]) == pu.checksum(env.tobytes(ctx, zeroed(raw[o:], 2))))
+      recs = l.fields.get('group_records') if hasattr(l, 'fields') else None
+      if recs:
+        # IGMPv3 membership report (RFC 3376 4.2): number of group records at offset 6, per record: type, aux data length (32-bit words), number of sources - big-endian
+        ctx.check(tag + 'igmpv3 number-of-group-records field', num(raw[o + 6:o + 8]) == len(recs))
+        ro = o + 8
+        for (rt, ra, srcs, aux) in recs:
+          ctx.check(tag + 'igmpv3 record: aux length and number-of-sources fields (network byte order)', ctx.And(raw[ro + 1] == len(aux) // 4, num(raw[ro + 2:ro + 4]) == len(srcs)))
+          ro += 8 + 4 * len(srcs) + len(aux)
     elif name == 'gre' and getattr(l, 'csum', False):
       ctx.check(tag + 'gre checksum-present bit set', (raw[o] & 0x80) == 0x80)
       ctx.check(tag + 'gre checksum field == RFC 1071 over GRE header + payload', num(raw[o + 4:o + 6]) == pu.checksum(env.tobytes(ctx, zeroed(raw[o:], 4))))
